@@ -2,6 +2,7 @@ import MJ.Proofs.MetaSim
 import MJ.Proofs.MetaNested
 import MJ.Proofs.MetaSet
 import MJ.Proofs.MetaArms
+import MJ.Proofs.MetaEsc
 import MJ.Gen.Tables
 /-!
 # C18 — `undeclared_variables` never omits a variable the template reads
@@ -17,6 +18,9 @@ that fail after any number of look-ups).
 any statement can call any macro of the template, any number of times, nested and recursive),
 the frames of `Context::load`, file sets (`setLog`).  `MJ/Model/MetaArms.lean`: the arms of
 `track_walk` / `tracker_visit_expr` / `track_assign` as a table the walkers interpret.
+`MJ/Model/MetaEsc.lean`: the closure heap of the engine (macro VALUES carry the id of a shared
+closure object and escape their scope), calls of escaped values (`readsE`), host callables that
+ask `State::lookup` and globals as explicit parameters (`readsH`).
 -/
 namespace MJ.C18
 open MJ.Meta
@@ -394,5 +398,160 @@ theorem walkers_interpret_arms :
 
 example : stmtOps (.forLoop (.var "x") (.var "y") none false [] []) = armForLoop ∧
     exprOps (.binop (.var "a") (.var "b")) = some eArmBinOp := ⟨rfl, rfl⟩
+
+/-! ## macro values that escape their scope -/
+
+/-- The sharing discipline of closure objects, as a theorem about the closure heap machine:
+after ANY history of the engine's operations (frames pushed and popped, stores, macro
+declarations, loop iterations that clear the frame and detach its closure, includes that take
+the closure away and put it back, macro calls in contexts of their own, in any order and
+nesting) every macro value built so far — wherever the template parked it — still finds every
+name its body captured (`find_macro_closure ∖ {caller}`) in the closure object it points to,
+and a longer history only adds keys to the closure objects. -/
+theorem closure_keys_never_lost (history more : List Ev) :
+    (∀ v ∈ (Heap.run history).pool,
+      ∀ x ∈ closureNames v.decl.args v.decl.defaults v.decl.body,
+        x ∈ (Heap.run history).keys v.closure) ∧
+    (∀ c k, (Heap.run history).has c k = true → (Heap.run (history ++ more)).has c k = true) :=
+  ⟨fun v hv x hx => mem_keys_of_has _ _ _ (run_good history v hv x hx),
+   fun c k hk => has_mono (run_mono history more) c k hk⟩
+
+/-- `{% set y = 1 %}{% for i in [1, 2] %}{% if loop.first %}{% macro m() %}{{ y }}{% endmacro %}
+{% set ns.m = m %}{% endif %}{% endfor %}{{ ns.m() }}` (the demo of the seeded change C18-7):
+the macro is declared in the first iteration, the second iteration detaches the closure of the
+loop frame; the value's closure object still has `y`. -/
+example :
+    let m : MacroDecl := ⟨[], [], [.emit (.var "y")]⟩
+    let history := [Ev.store "y", .pushLoop, .iterate, .store "i", .declare m, .store "m",
+      .iterate, .store "i", .popFrame]
+    (Heap.run history).pool.map (fun v => (Heap.run history).keys v.closure) = [["m", "y"]] ∧
+    (Heap.run history).complete = true := by decide
+
+/-- … and the engine of the seeded change C18-7 (`next_loop_item` clears the closure object in
+place and keeps it attached) violates exactly this: after the same history the parked macro's
+closure object is empty. -/
+theorem clearing_in_place_loses_keys :
+    ∃ history, (Heap.runClearing history).complete = false ∧ (Heap.run history).complete = true :=
+  ⟨[Ev.store "y", .pushLoop, .iterate, .store "i", .declare ⟨[], [], [.emit (.var "y")]⟩,
+    .store "m", .iterate, .store "i", .popFrame], by decide, by decide⟩
+
+/-- Source tie for the sharing discipline: every site of `minijinja/src` that creates, reads,
+fills, detaches or shares a closure object or a closure field of a frame or of a macro value
+(regenerated from the sources) is a row of the model's table, where it is assigned to an event
+of the closure heap machine; the operations on closure OBJECTS among them are creation,
+insertion and reads only (nothing clears, removes, truncates or replaces), and the only
+assignments to `Frame::closure` are the detach of `next_loop_item` and `reset_closure`. -/
+theorem closure_sites_as_modelled :
+    closureSites.map (fun s => (s.file, s.fn, s.op)) = MJ.Gen.c18ClosureSites ∧
+    (∀ s ∈ MJ.Gen.c18ClosureSites, s.2.2 ∈ closureObjectOps ∨ s.2.2 ∈ closureFieldOps) ∧
+    (MJ.Gen.c18ClosureSites.filter (fun s => s.2.2 ∈ ["frame.closure=None", "frame.closure=closure",
+        "frame.closure.take"])).map (fun s => s.2.1) =
+      ["next_loop_item", "reset_closure", "take_closure"] := by
+  decide
+
+example : ("minijinja/src/vm/context.rs", "next_loop_item", "frame.closure=None") ∈ MJ.Gen.c18ClosureSites
+    ∧ "map.clear" ∉ closureObjectOps ∧ "map.clear" ∉ closureFieldOps := by decide
+
+/-- `reads_subset_undeclared` for templates whose macro VALUES escape: while any statement
+runs, the choice tree may call any macro value that ANY history of the engine produced (`W k`:
+what the engine did with frames and closure objects before the call — in this template or in
+the one that exported the value — and which value of the pool is called: parked in a namespace
+attribute, a list, a map, a host object, handed over as an argument or as `caller`, imported),
+any number of times, nested and recursive to any depth, besides everything
+`reads_subset_undeclared_calls` allows.  The call runs in `[closure frame, base frame]` where
+the closure frame resolves what the value's closure object holds at that moment (at least the
+names the body captured: `closure_keys_never_lost`).  Every context key asked is reported, in
+both modes of the analysis. -/
+theorem escaped_macro_reads_subset_undeclared (W : Nat → EscCall) (t : List Stmt) (cs : List Ch)
+    (d : Nat) (x : String) (hx : x ∈ readsE W t cs d) :
+    x ∈ findUndeclared t ∧ ∃ attrs, (x, attrs) ∈ findUndeclaredNested t := by
+  refine ⟨?_, ?_⟩
+  · have hflat : (walkList St.init t).nested = none := (step_walkList t St.init).nn rfl
+    exact (reported_none hflat x).1 (template_sound_esc W t St.init rfl cs d x hx)
+  · obtain ⟨n, hn⟩ := (step_walkList t St.initNested).sn (n := []) rfl
+    have h := template_sound_esc W t St.initNested rfl cs d x hx
+    simp only [St.reported, hn] at h
+    simpa [findUndeclaredNested, hn] using h
+
+/-- the demo of C18-7 as an execution of the model: the last statement `{{ ns.m() }}` calls the
+value the history built (request 1 = the first escaped value: the template has one macro);
+the call asks the context for nothing (`y` and the free name `u`, pinned by `Enclose` at the
+declaration, come from the closure object); the look-ups are `namespace` and the `Enclose` of
+`u` at the declaration, both reported -/
+example :
+    let m : MacroDecl := ⟨[], [], [.emit (.var "y"), .emit (.var "u")]⟩
+    let W : Nat → EscCall := fun _ =>
+      ⟨[Ev.store "y", .pushLoop, .iterate, .store "i", .declare m, .store "m", .iterate, .store "i",
+        .popFrame], 0⟩
+    let t : List Stmt := [.set (.var "y") .const, .set (.var "ns") (.call (.var "namespace") []),
+      .forLoop (.var "i") .const none false
+        [.ifCond (.getattr (.var "loop") "first")
+          [.macro "m" [] [] [.emit (.var "y"), .emit (.var "u")],
+           .set (.getattr (.var "ns") "m") (.var "m")] []] [],
+      .emit (.call (.getattr (.var "ns") "m") [])]
+    readsE W t [.default, .default, .mk 2 [[.mk 1 [[]] [] 0], [.mk 0 [[]] [] 0]] [] 0,
+        .mk 0 [] [.mk 1 [[]] [] 0] 0] 2 = ["namespace", "u"] ∧
+    findUndeclared t = ["u", "namespace"] ∧
+    (W 0).target.map Prod.snd = some ["m", "y", "u"] := by decide
+
+/-! ## host callables and globals -/
+
+/-- Host callables and globals as explicit parameters: `hosts` lists, for every host callable
+of the environment (function, filter, test, object method), the names it may ask
+`State::lookup` for.  While any statement runs the choice tree may invoke any of them, any
+number of times, at any nesting depth; a callable sees the frames of that moment
+(`Context::load`: a name some frame resolves does not reach the context) and may call template
+values back.  Every context key a render asks for is then reported by the analysis (both
+modes) or is one of the names a host callable asks for. -/
+theorem reads_subset_undeclared_hosts (hosts : List (List String)) (W : Nat → EscCall)
+    (t : List Stmt) (cs : List Ch) (d : Nat) (x : String) (hx : x ∈ readsH hosts W t cs d) :
+    (x ∈ findUndeclared t ∧ ∃ attrs, (x, attrs) ∈ findUndeclaredNested t) ∨
+      ∃ h ∈ hosts, x ∈ h := by
+  have hflat : (walkList St.init t).nested = none := (step_walkList t St.init).nn rfl
+  obtain ⟨n, hn⟩ := (step_walkList t St.initNested).sn (n := []) rfl
+  rcases template_sound_hosts hosts W t St.init rfl cs d x hx with h1 | h1
+  · rcases template_sound_hosts hosts W t St.initNested rfl cs d x hx with h2 | h2
+    · left
+      refine ⟨(reported_none hflat x).1 h1, ?_⟩
+      simp only [St.reported, hn] at h2
+      simpa [findUndeclaredNested, hn] using h2
+    · exact Or.inr h2
+  · exact Or.inr h1
+
+/-- a host callable that asks for `cfg` while `{% with cfg = 1 %}…{% endwith %}` runs sees the
+with frame (nothing reaches the context); invoked after the block it asks the context -/
+example :
+    readsH [["cfg"]] (fun _ => {}) [.withBlock [(.var "cfg", .const)] [.emit (.call (.var "gf") [])],
+      .emit (.call (.var "gf") [])]
+      [.mk 0 [[.mk 0 [] [.mk 0 [[]] [] 0] 0]] [] 0, .mk 0 [] [.mk 0 [[]] [] 0] 0] 2 = ["gf", "cfg", "gf"] := by
+  decide
+
+/-- The statement of the property with its exception: when the host callables only ask for
+names that are globals of the environment (contrib's `TIMEZONE`, `DATETIME_FORMAT`, … are
+meant to be set as globals), every context key a render asks for is reported or is one of the
+environment's globals.  Globals themselves never save a look-up: `Context::load` asks the
+context first (`context_asked_iff_no_frame_resolves`). -/
+theorem reads_subset_undeclared_or_global (globals : List String) (hosts : List (List String))
+    (hg : ∀ h ∈ hosts, ∀ x ∈ h, x ∈ globals) (W : Nat → EscCall)
+    (t : List Stmt) (cs : List Ch) (d : Nat) (x : String) (hx : x ∈ readsH hosts W t cs d) :
+    x ∈ findUndeclared t ∨ x ∈ globals := by
+  rcases reads_subset_undeclared_hosts hosts W t cs d x hx with h | ⟨h, hh, hx'⟩
+  · exact Or.inl h.1
+  · exact Or.inr (hg h hh x hx')
+
+/-- `{% set y = 1 %}{% macro m() %}{{ y }}{{ peek() }}{% endmacro %}{{ m() }}{{ peek() }}` with
+a host callable `peek` that asks for `y` and `TZ`: called from the macro body (request 2 of the
+body's second statement: targets are `[host 0, macro 0]`) it sees the closure frame (`y`
+resolved, `TZ` asked); called at top level it sees the root frame (`y` bound there too);
+`peek` itself is asked at the declaration of `m` (`Enclose`) and by the last statement -/
+example :
+    let t : List Stmt := [.set (.var "y") .const,
+      .macro "m" [] [] [.emit (.var "y"), .emit (.call (.var "peek") [])],
+      .emit (.call (.var "m") []), .emit (.call (.var "peek") [])]
+    readsH [["y", "TZ"]] (fun _ => {}) t
+      [.default, .default,
+       .mk 0 [] [.mk 1 [[.default, .mk 0 [] [.mk 0 [[]] [] 0] 0]] [] 0] 0,
+       .mk 0 [] [.mk 0 [[]] [] 0] 0] 3 = ["peek", "TZ", "TZ", "peek"] ∧
+    findUndeclared t = ["peek", "peek"] := by decide
 
 end MJ.C18
